@@ -1,5 +1,6 @@
 import Abverif.Proofs.Lemmas.SessReply
 import Abverif.Proofs.Lemmas.SessInvWalk
+import Abverif.Proofs.Lemmas.SessCovered
 import Abverif.Model.SessTrace
 import Abverif.Model.SendTable
 /-
@@ -245,6 +246,60 @@ example : runOuts (runState (init .sync) callee1) [.msg (.invocation 9 70 {} non
     [.endpoint 9 0 1 [] [(0, .callDetails 0 false)], .userError, .send { typ := .error, req := 9, uri := uInvalidPayload }] := by
   decide
 
+/-! ### exactly one, for every history the real transports can produce -/
+
+/-- a plan made of covered units is covered in the sense of `planCovered` (the converse fails: `[ser]` followed by a
+later `[big]` is two covered plans whose concatenation refuses the fallback ERROR — which is why the history-level
+statement needs the unit form) -/
+theorem planUnits_covered (l : List SendOut) (h : planUnits l = true) : planCovered l = true := by
+  unfold planUnits at h
+  split at h <;> simp_all [planCovered]
+
+/-- **`one_terminal_reply_covered`** — exactly one, at history level, both scheduling modes: in EVERY history that begins
+with `onOpen`, in which the transport stays up (no `onClose`) and every `send()` plan is made of covered units (each
+refusal — unserializable / oversize — followed by an acceptance: what the four real transports produce,
+`real_transport_plan_units`), whatever endpoints, user code, the router and the loop do: for every request id the
+terminal replies sent (YIELD without progress, ERROR) plus the invocations still running equal the endpoint calls made.
+So every invocation that has ended — its record has left `_invocations`: outcome known and closure run — has exactly one
+terminal reply in the trace, and none has more. (`at_most_one_terminal_reply` is the ≤ half for every history;
+`Lemmas/SessCovered.lean` proves the ≥ half: a record leaves `_invocations` only together with a terminal reply.) -/
+theorem one_terminal_reply_covered (mode : Sched) (acts : List HAct) (rest : List SEv)
+    (hc : rest.all SEv.covered = true) (req : ReqId) :
+    terminals req (runOuts (init mode) (.open_ acts :: rest)) + owing req (runState (init mode) (.open_ acts :: rest)) =
+      accepts req (runOuts (init mode) (.open_ acts :: rest)) := by
+  have hle := at_most_one_terminal_reply mode (.open_ acts :: rest) req
+  -- `onOpen` on the fresh object: the transport is there before anything else happens
+  have h0 : Cov req { init mode with transport := true, ended := false } := ⟨rfl, rfl, by intro o ho; simp [init] at ho⟩
+  have h1 := (covLiftT req).defer (fun r o h => invDone_cov h r o) h0 (.connect (acts.headD {}))
+  have hstep : CovRel req { init mode with transport := true, ended := false } (step (init mode) (.open_ acts)).2
+      (step (init mode) (.open_ acts)).1 := by
+    have := (covLiftT req).cons h0 (o := .fire .connect) rfl h1
+    simpa [step, onOpen] using this
+  have hrun := run_cov (req := req) hstep.1 rest hc
+  have hall := CovRel.trans hstep hrun
+  rw [← runOuts_cons, ← runState_cons] at hall
+  have hge := hall.2
+  have ho : owing req { init mode with transport := true, ended := false } = 0 := by simp [owing, init]
+  omega
+
+/-- … in the shape of `OneTerminalReply`: once nothing is owed for the id, terminal replies = endpoint calls -/
+theorem one_terminal_reply_covered_ended (mode : Sched) (acts : List HAct) (rest : List SEv)
+    (hc : rest.all SEv.covered = true) (req : ReqId)
+    (hend : owing req (runState (init mode) (.open_ acts :: rest)) = 0) :
+    terminals req (runOuts (init mode) (.open_ acts :: rest)) = accepts req (runOuts (init mode) (.open_ acts :: rest)) := by
+  have := one_terminal_reply_covered mode acts rest hc req
+  omega
+
+/-- non-vacuity: a history with a fault — an oversize result refused, the fallback ERROR accepted — satisfies the
+hypothesis, and the invocation has ended with exactly one terminal reply; and the history that refutes the unrestricted
+statement does not satisfy it -/
+example : ([.msg (.welcome 7) [], .api (.register 1 4 (some { detailsArg := some 0 }) .ok), .msg (.registered 1 70) [],
+      .fault [.payloadExceeded, .ok], .msg (.invocation 9 70 {} none) [{ ret := .val 1 }], .pump] : List SEv).all SEv.covered = true ∧
+    owing 9 (runState (init .deferred) (.open_ [] :: [.pump, .msg (.welcome 7) [], .pump,
+      .api (.register 1 4 (some { detailsArg := some 0 }) .ok), .msg (.registered 1 70) [],
+      .fault [.payloadExceeded, .ok], .msg (.invocation 9 70 {} none) [{ ret := .val 1 }], .pump])) = 0 ∧
+    SEv.covered (.fault [.payloadExceeded, .payloadExceeded]) = false ∧ SEv.covered (.fault [.other]) = false := by decide
+
 /-- non-vacuity of the accounting: three invocations (plain, failing with the fallback, interrupted while pending) get
 one terminal reply each; on asyncio the replies go out when the loop runs -/
 example : let outs := runOuts (init .deferred) ([.open_ [], .pump, .msg (.welcome 7) [], .pump,
@@ -332,5 +387,26 @@ theorem fallback_plan_covered (t : Transport) (c : Cause) (rest : List SendOut) 
   cases c
   · rw [h.1]; rfl
   · rw [h.2]; rfl
+
+/-- why the hypothesis of `one_terminal_reply_covered` is the unit form and not "`planCovered` for every fault event":
+`[ser]` and `[big]` are covered plans each, one after the other they make the fallback ERROR of the first refusal meet the
+second refusal — the endpoint is called, the invocation ends, nothing is sent -/
+example : planCovered [.serialization] = true ∧ planCovered [.payloadExceeded] = true ∧
+    planUnits ([.serialization] ++ [.payloadExceeded]) = false ∧
+    terminals 9 (runOuts (init .sync) (callee1 ++ [.fault [.serialization], .fault [.payloadExceeded],
+      .msg (.invocation 9 70 {} none) [{ ret := .val 1 }]])) = 0 ∧
+    accepts 9 (runOuts (init .sync) (callee1 ++ [.fault [.serialization], .fault [.payloadExceeded],
+      .msg (.invocation 9 70 {} none) [{ ret := .val 1 }]])) = 1 ∧
+    owing 9 (runState (init .sync) (callee1 ++ [.fault [.serialization], .fault [.payloadExceeded],
+      .msg (.invocation 9 70 {} none) [{ ret := .val 1 }]])) = 0 := by decide
+
+/-- what a real transport does with a result that is unfit for the wire — refuse it as its `send()` table says, accept
+the fallback ERROR — is a covered unit (`fallback_covers`) -/
+theorem real_transport_plan_units (t : Transport) (c : Cause) (rest : List SendOut) (h : planUnits rest = true) :
+    planUnits (sendTable t c :: .ok :: rest) = true := by
+  have hc := fallback_covers t
+  cases c
+  · rw [hc.1]; simpa [planUnits] using h
+  · rw [hc.2]; simpa [planUnits] using h
 
 end Abverif.Session
